@@ -606,7 +606,7 @@ func init() {
 		r.ValidateTrace("schema", col, core.TLCOpts{Module: "SchemaTrace", Cfg: "SchemaTrace.cfg", Timeout: 0, HeapGB: 8})
 		directionB(r, "C04", true)
 		// however the run is asked for (Process, GetModule, after ClearEntryCache): clean means clean, and the trees are those of a fresh set
-		SessionHistories(r, "C04", "dv")
+		SessionHistories(r, "C04", "dvok")
 	}
 	core.Checks["C12"] = func(r *core.Run) {
 		r.Rule = "A: the config space (config unset/true/false at three depths; the second and third level placed by plain nesting, uses, a shorthand choice member or case, or an augment from another module; the whole tree in the module or in a submodule; the same under rpc input, rpc output and notification without config statements) and the augment space; for every node of every clean outcome ReadOnly(), Namespace() and InstantiatingModule() are compared with the specification's reading of who wrote which statement. Non-trivial = every case."
@@ -723,7 +723,7 @@ func init() {
 		designRun(r, "C08", tierCfgs(r, []string{"dev1", "dev2", "dev3", "dev_triples"}, nil), nil)
 		directionB(r, "C08", false)
 		RegistryReg(r) // several revisions of the target module: a deviation lands in the one the import denotes
-		SessionHistories(r, "C08", "dv")
+		SessionHistories(r, "C08", "dv", "dvok")
 	}
 }
 
